@@ -49,6 +49,9 @@ enum { R_I, R_S, R_L, R_M, R_G, R_E, I0_A, I0_Z, I1_A, I1_Z };
 #ifndef HAS_ROOT
 #define HAS_ROOT 1
 #endif
+#ifndef OWN_INST
+#define OWN_INST 1 /* which instance of the multi section carries its own filter (0: the first, so that later siblings must fall back to the inherited one) */
+#endif
 #ifndef HAS_INST1
 #define HAS_INST1 0
 #endif
@@ -295,12 +298,12 @@ int main(void)
 	 * filter to its own options and hand it down to its sections */
 	cfg_set_print_filter_func(&root, NULL);
 	if (has_inst1)
-		cfg_set_print_filter_func(inst[1], filt_inst);
+		cfg_set_print_filter_func(inst[OWN_INST], filt_inst);
 	rc = cfg_print_pff_indent(&root, (FILE *)&root, filt_root, INDENT0) == 0 ? CFG_SUCCESS : CFG_FAIL;
 #else
 	cfg_set_print_filter_func(&root, has_root ? filt_root : NULL);
 	if (has_inst1)
-		cfg_set_print_filter_func(inst[1], filt_inst);
+		cfg_set_print_filter_func(inst[OWN_INST], filt_inst);
 
 	rc = cfg_print_indent(&root, (FILE *)&root, INDENT0);
 #endif
@@ -315,7 +318,7 @@ int main(void)
 		if (ctx_of[k] == &root) {
 			eff[k] = has_root ? filt_root : NULL;
 		} else {
-			own = (ctx_of[k] == inst[1] && has_inst1);
+			own = (ctx_of[k] == inst[OWN_INST] && has_inst1);
 			eff[k] = own ? filt_inst : (has_root ? filt_root : NULL);
 			sec_filtered = has_root && tabR[R_M];
 		}
